@@ -11,7 +11,7 @@ import traceback
 
 import z3
 
-from . import symx, symcodec, ops
+from . import symx, symcodec, ops, symnp
 from .tree import Raised
 
 HERE = os.path.dirname(os.path.dirname(os.path.abspath(__file__)))
@@ -25,15 +25,18 @@ class ReplayClient:
         env.pop("PYTHONPATH", None)
         env["PYTHONDONTWRITEBYTECODE"] = "1"
         env.update(env_extra or {})
+        import tempfile
+        self.err = tempfile.TemporaryFile(mode="w+")
         self.p = subprocess.Popen([REAL_PY, "-m", "vf.replay_server"], cwd=HERE, env=env,
-                                  stdin=subprocess.PIPE, stdout=subprocess.PIPE, stderr=subprocess.DEVNULL,
+                                  stdin=subprocess.PIPE, stdout=subprocess.PIPE, stderr=self.err,
                                   text=True, bufsize=1)
     def call(self, op, inputs):
         self.p.stdin.write(json.dumps({"op": op, "inputs": inputs}) + "\n")
         self.p.stdin.flush()
         line = self.p.stdout.readline()
         if not line:
-            raise symx.HarnessError("replay server died")
+            self.err.seek(0)
+            raise symx.HarnessError("replay server died on op " + op + ": " + self.err.read()[-1500:])
         return json.loads(line)
     def close(self):
         try:
@@ -47,10 +50,14 @@ _client_pid = None
 
 def replay(op, inputs):
     global _client, _client_pid
-    if _client is None or _client_pid != os.getpid():
+    if _client is None or _client_pid != os.getpid() or _client.p.poll() is not None:
         _client = ReplayClient()
         _client_pid = os.getpid()
-    r = _client.call(op, inputs)
+    try:
+        r = _client.call(op, inputs)
+    except (BrokenPipeError, OSError):
+        _client = ReplayClient()
+        r = _client.call(op, inputs)
     if "error" in r:
         raise symx.HarnessError("replay error: " + r["error"] + "\n" + r.get("tb", ""))
     return r
@@ -186,13 +193,40 @@ def make_path_fn(h, known_regions, do_replay=True):
                 wi = symcodec.decode(res["witness"])
                 inreg = [k for k, v in h.regions(wi).items() if k in known_regions and z3.is_true(z3.simplify(_to_bool(v)))]
                 res["witness_in_region"] = inreg
-            if "cex" in res:
+            rounds = 0
+            while "cex" in res:
                 rr = replay(h.opname, res["cex"])
                 holds, bad = concrete_verdict(h, res["cex"], rr["out"])
                 res["cex_reproduced"] = not holds
                 res["cex_real_failing"] = bad
                 res["cex_real_out"] = rr["out"]
                 res["cex_conforms"] = _same_json(rr["out"], res["cex_pred"])
+                if not holds or rounds >= 4 or not ctx.notes.get("uf"):
+                    break
+                # counterexample-guided refinement of the uninterpreted reducers: the counterexample gave
+                # np.mean & co. arbitrary values; pin them to the real NumPy values at these arguments and re-solve
+                rounds += 1
+                added = 0
+                for key, apps in ctx.notes["uf"].items():
+                    for args, r in apps:
+                        vals = [m1.eval(a, model_completion=True) for a in args]
+                        try:
+                            real = symnp._uf_concrete(key[0], vals, key[3])
+                        except BaseException:
+                            continue
+                        ctx.assume(z3.Implies(z3.And([a == v for a, v in zip(args, vals)]) if args else z3.BoolVal(True), r == real))
+                        added += 1
+                if not added: break
+                r1, m1 = ctx.check(z3.Not(phi), z3.Not(R))
+                res["obligations"] += 1
+                res["uf_refinements"] = rounds
+                res["verdict"] = {"unsat": "proved", "sat": "violation", "unknown": "unknown"}[r1]
+                for k in ("cex", "cex_pred", "cex_failing", "cex_reproduced", "cex_real_failing", "cex_real_out", "cex_conforms"):
+                    res.pop(k, None)
+                if r1 == "sat":
+                    res["cex"] = symcodec.encode(inp, m1)
+                    res["cex_pred"] = symcodec.encode(out, m1)
+                    res["cex_failing"] = _failing(clauses, m1)
             if "known" in res:
                 rr = replay(h.opname, res["known"]["cex"])
                 holds, bad = concrete_verdict(h, res["known"]["cex"], rr["out"])
